@@ -31,13 +31,13 @@ CHECKS = {
     "C15": dict(
         technique="deterministic simulation: PRNG device with simulated entropy source (EINTR/EAGAIN/EIO), NV storage faults (errors, short/torn writes) and power loss; twin-tape influence runs; inverse-permutation state oracle",
         category="exploration",
-        text="Seeded histories of init/fetch/feed/reseed/save/load/ascon_random/free/power-loss on a simulated device: the entropy tape and its faults come from a wrapped getrandom(), the flash page and its faults from the ascon_storage_t callbacks. Oracles are the sentences of the property: same plan twice => same output; flipping one consumed tape byte, one fed byte or one byte of a stored seed that is later loaded changes every later block >= 16 bytes; after every init/fetch/feed/reseed/save/load p^-1(state) has a zero rate; a fetch after 16384 produced bytes draws from the source before it produces output (whether a draw comes before or after the output of a call is observed from the source's side, so a generator that reseeds as soon as the limit is reached is judged correctly too); every status equals the injected health of source/storage. Sampling over histories x fault sequences.",
+        text="Seeded histories of init/fetch/feed/reseed/save/load/ascon_random/free/power-loss on a simulated device: the entropy tape and its faults come from a wrapped getrandom(), the flash page and its faults from the ascon_storage_t callbacks. Oracles are the sentences of the property: same plan twice => same output (the two executions differ in the address and in the previous content of the generator's memory: 0xD7 dirt against zero-filled or 0x2B); flipping one consumed tape byte, one fed byte or one byte of a stored seed that is later loaded changes every later block >= 16 bytes; after every init/fetch/feed/reseed/save/load p^-1(state) has a zero rate; a fetch after 16384 produced bytes draws from the source before it produces output (whether a draw comes before or after the output of a call is observed from the source's side, so a generator that reseeds as soon as the limit is reached is judged correctly too); every status equals the injected health of source/storage. Sampling over histories x fault sequences.",
         note="Trusted: harness p^-1 (validated against embedded known answers and its own forward direction, not against the library; on a build whose permutation differs from the model the p^-1 oracle is skipped and counted); Linux no-split guarantee for getrandom <= 256 bytes; status convention of random.h as repaired by the F12 fix commit.",
         design="§3 W3, §4 C15"),
     "C16": dict(
         technique="deterministic simulation: real threads released one at a time by a seeded scheduler that may pre-empt at every instrumented load/store/function entry of the library; own byte-precise race detector, static-storage write detector and per-thread result comparison",
         category="exploration",
-        text="2..8 simulated caller threads run seeded plans over 22 operation kinds (hash, xof incl. custom/fixed variants, the AEADs, incremental AEAD, SIV, ISAP, masked AEADs, PRF/HMAC/KMAC/HKDF/KDF/PBKDF2 in both permutation families, ascon_random, PRNG objects, and every C++ class through its encrypt/decrypt pair; a third of the packets are corrupted before decryption so that failure paths run too) on private objects, on a shared pre-computed ISAP key per variant, shared masked keys and shared constant inputs. The library's C sources are built with clang load/store/function-entry callbacks, so every memory access of library code is both seen by the harness's race detector (any two accesses of different threads to the same byte with at least one write, since the library has no synchronisation) and a potential pre-emption point decided by the seeded scheduler (Bernoulli rates 1/10..1/5000 or PCT-style change points). Three invariants: no race; no store to the executable's writable static storage (hidden global state); every thread's results equal its plan run alone. Passes: c64 (no blind spots), asm (permutation modelled at the call boundary), c32 with 3 shares and direct-xor with 4 shares in quick; all five backends in thorough. Same seed => same switch sequence (checked under contention).",
+        text="2..8 simulated caller threads run seeded plans over 27 operation kinds (hash, xof incl. custom/fixed variants, the AEADs, incremental AEAD, SIV, ISAP, masked AEADs, PRF/HMAC/KMAC/HKDF/KDF/PBKDF2 in both permutation families, ascon_random, PRNG objects, and every C++ class through its encrypt/decrypt pair; a third of the packets are corrupted before decryption so that failure paths run too) on private objects, on a shared pre-computed ISAP key per variant, shared masked keys, shared constant inputs, shared source states to copy from, adjacent output slices of one buffer, and one shared constant storage descriptor through which the generators of all threads save and load their seeds (a third of these operations meets a failing write). The library's C sources are built with clang load/store/function-entry callbacks, so every memory access of library code is both seen by the harness's race detector (any two accesses of different threads to the same byte with at least one write, since the library has no synchronisation) and a potential pre-emption point decided by the seeded scheduler (Bernoulli rates 1/10..1/5000 or PCT-style change points). Four invariants: no race; no store to the executable's writable static storage (hidden global state); every thread's results equal its plan run alone; every shared object holds, after the run, exactly the bytes it held before the first operation. Passes: c64 (no blind spots), asm (permutation modelled at the call boundary), c32 with 3 shares and direct-xor with 4 shares in quick; all five backends in thorough. Same seed => same switch sequence (checked under contention).",
         note="Trusted: clang's sanitizer-coverage instrumentation to report every load/store of the C sources; the baton scheduler; races are judged on a clang -O1 build, not the shipped -O3 one (a race is a source-level property). Allocation inside the library is observed through malloc/free hooks. Assembly objects cannot be instrumented: races inside them are out of reach, but any writable static storage they bring along is compared before and after every run.",
         design="§3 W4, §4 C16"),
     "C17": dict(
